@@ -10,23 +10,26 @@ variable {orc : Oracle} {inst : Instance}
 
 /-- what one AGV transition does, in enough detail for the route invariant -/
 inductive AgvEffectR (inst : Instance) (s s' : State) (tr : Transition) (t0 t' : TransportState) : Prop
-  | dispatch (j : JobState) (cur : Loc) (pick : Nat) (drop : Loc) : t0.st = .idle → t'.st = .pickup →
+  | dispatch (j : JobState) (cur : Loc) (pick : Nat) (drop : Loc) : tr.new = .t .working → t0.st = .idle → t'.st = .pickup →
       t'.job = some j.id → t'.loc = .route cur pick drop → t'.buffer = t0.buffer → j ∈ s.jobs → tr.job = some j.id →
       dropOK inst j JobState.nextIdle? drop → s'.jobs = s.jobs → s'.machines = s.machines → AgvEffectR inst s s' tr t0 t'
   | keep : (t0.st = .pickup ∨ t0.st = .waitingpickup ∨ t0.st = .outage) → t'.st ≠ .transit → t'.job = t0.job →
       t'.loc = t0.loc → t'.buffer = t0.buffer → s'.jobs = s.jobs → s'.machines = s.machines → AgvEffectR inst s s' tr t0 t'
-  | pickup (j : JobState) : (t0.st = .pickup ∨ t0.st = .waitingpickup) → t'.st = .transit → t'.job = t0.job →
+  | pickup (j : JobState) : tr.new = .t .transit → (t0.st = .pickup ∨ t0.st = .waitingpickup) → t'.st = .transit → t'.job = t0.job →
       t'.loc = t0.loc → t'.buffer.store = t0.buffer.store ++ [j.id] → j ∈ s.jobs → tr.job = some j.id →
       s'.jobs = (s.replaceJob (j.at t0.buffer.id)).jobs →
       (∀ m' ∈ s'.machines, ∃ m ∈ s.machines, m.id = m'.id ∧ ∀ x ∈ m'.pre.store, x ∈ m.pre.store) →
       AgvEffectR inst s s' tr t0 t'
-  | deliverM (j : JobState) (cur : Loc) (pick : Nat) (ms : MachineState) (bss : BSS) : t'.st = .outage → t'.job = none →
+  | deliverM (j : JobState) (cur : Loc) (pick : Nat) (ms : MachineState) (bss : BSS) : tr.new = .t .outage →
+      (t0.st = .transit ∨ t0.st = .working) → t'.st = .outage → t'.job = none →
       t0.loc = .route cur pick (.m ms.id) → ms ∈ s.machines → j ∈ s.jobs → j.id ∈ t0.buffer.store →
       s'.jobs = (s.replaceJob (j.at ms.pre.id)).jobs → s'.machines = (s.replaceMachine (ms.withPre j.id bss)).machines →
       AgvEffectR inst s s' tr t0 t'
-  | deliverB (j : JobState) (cur : Loc) (pick : Nat) (b : BufState) : t'.st = .outage → t'.job = none →
+  | deliverB (j : JobState) (cur : Loc) (pick : Nat) (b : BufState) (bss : BSS) : tr.new = .t .outage →
+      (t0.st = .transit ∨ t0.st = .working) → t'.st = .outage → t'.job = none →
       t0.loc = .route cur pick (.b b.id) → b ∈ s.buffers → j ∈ s.jobs → j.id ∈ t0.buffer.store →
-      s'.jobs = (s.replaceJob (j.at b.id)).jobs → s'.machines = s.machines → AgvEffectR inst s s' tr t0 t'
+      s'.jobs = (s.replaceJob (j.at b.id)).jobs → s'.machines = s.machines →
+      s'.buffers = (s.replaceBuffer (b.withBack j.id bss)).buffers → AgvEffectR inst s s' tr t0 t'
 
 theorem agv_effectR (w : WF inst) {s s' : State} {r r' : Rng} {tr : Transition} {tid : Nat} (hI : StructInv inst s)
     (hc : tr.comp = .t tid) (h : applyTransition orc inst s r tr = .ok (s', r')) :
@@ -58,7 +61,7 @@ theorem agv_effectR (w : WF inst) {s s' : State} {r r' : Rng} {tr : Transition} 
           have hst := agvHandler_idleToWorking hah
           obtain ⟨j, cur, target, src, bc, c, hj, htj, _, hdrop, _, _, _, _, _, rfl⟩ := idleToWorking_spec h
           exact ⟨t0, t0.toPickup cur bc.id target (s.time + c.cur orc r) j.id, hmem.1, hmem.2, rfl, rfl,
-            .dispatch j cur bc.id target hst.1 rfl rfl rfl rfl hj htj hdrop rfl rfl⟩
+            .dispatch j cur bc.id target (by rw [hn, hst.2]) hst.1 rfl rfl rfl rfl hj htj hdrop rfl rfl⟩
         | pickupToWaitingpickup =>
           have hst := agvHandler_pickupToWaiting hah
           obtain ⟨occ, _, _, _, rfl⟩ := pickupToWaiting_spec h
@@ -80,8 +83,8 @@ theorem agv_effectR (w : WF inst) {s s' : State} {r r' : Rng} {tr : Transition} 
           refine ⟨t0, t0.toTransit (s.time + tt) j.id bss2, hmem.1, hmem.2, rfl, ?_, ?_⟩
           · rcases hcase with ⟨fb, _, _, _, _, _, rfl⟩ | ⟨mid, ms, bs, ms', _, _, _, _, _, _, _, rfl⟩ <;> rfl
           · rcases hcase with ⟨fb, _, _, _, _, _, rfl⟩ | ⟨mid, ms, bs, ms', _, _, hms, _, hbs, _, hms', rfl⟩
-            · exact .pickup j hst.2 rfl rfl rfl rfl hj htj rfl (fun m' hm' => ⟨m', hm', rfl, fun x hx => hx⟩)
-            · refine .pickup j hst.2 rfl rfl rfl rfl hj htj rfl ?_
+            · exact .pickup j (by rw [hn, hst.1]) hst.2 rfl rfl rfl rfl hj htj rfl (fun m' hm' => ⟨m', hm', rfl, fun x hx => hx⟩)
+            · refine .pickup j (by rw [hn, hst.1]) hst.2 rfl rfl rfl rfl hj htj rfl ?_
               intro m1 hm1
               have hid : ms'.id = ms.id ∧ ∀ x ∈ ms'.pre.store, x ∈ ms.pre.store := by
                 obtain ⟨_, hwhich⟩ := bufOfMachine_ok hbs
@@ -110,14 +113,15 @@ theorem agv_effectR (w : WF inst) {s s' : State} {r r' : Rng} {tr : Transition} 
               · exact ⟨ms, hms, hid.1.symm, hid.2⟩
               · exact ⟨m1, hy0, rfl, fun x hx => hx⟩
         | transitToOutage =>
+          have hst := agvHandler_transitToOutage hah
           obtain ⟨j, cur, pick, drop, tc, outs, bss1, bss2, hj, _, hloc, hin, _, _, _, hcase⟩ := transitToOutage_spec h
           refine ⟨t0, t0.toOutage j.id bss1 outs (s.time + occupiedFor outs) drop, hmem.1, hmem.2, rfl, ?_, ?_⟩
           · rcases hcase with ⟨mid, ms, _, _, _, _, rfl⟩ | ⟨bid, b, _, _, _, _, rfl⟩ <;> rfl
           · rcases hcase with ⟨mid, ms, e1, hms, e2, _, rfl⟩ | ⟨bid, b, e1, hb, e2, _, rfl⟩
             · subst e2
-              exact .deliverM j cur pick ms bss2 rfl rfl (by rw [hloc, e1]) hms hj hin rfl rfl
+              exact .deliverM j cur pick ms bss2 (by rw [hn, hst.1]) hst.2 rfl rfl (by rw [hloc, e1]) hms hj hin rfl rfl
             · subst e2
-              exact .deliverB j cur pick b rfl rfl (by rw [hloc, e1]) hb hj hin rfl rfl
+              exact .deliverB j cur pick b bss2 (by rw [hn, hst.1]) hst.2 rfl rfl (by rw [hloc, e1]) hb hj hin rfl rfl rfl
 
 
 /-- replacing a record that is not idle by one that is not idle changes neither the next idle
@@ -132,20 +136,21 @@ theorem replaceOp_keep_idle (j : JobState) (x : OpState) (hx : x.st ≠ .idle)
   | nil => simp
   | cons o os ih =>
     have ih' := ih (fun y hy => h y (by simp [hy]))
+    have e1 : (x.st == OSt.idle) = false := by simpa using hx
+    have e3 : (x.st != OSt.idle) = true := by simpa using hx
     by_cases hk : (o.job == x.job && o.idx == x.idx) = true
     · have hk' : o.job = x.job ∧ o.idx = x.idx := by simpa using hk
       have ho := h o (by simp) hk'
-      have e1 : (x.st == OSt.idle) = false := by simpa using hx
       have e2 : (o.st == OSt.idle) = false := by simpa using ho
-      simp only [List.map_cons, hk, if_true, List.find?_cons, e1, e2, List.all_cons]
-      refine ⟨ih'.1, ?_⟩
-      have e3 : (x.st != OSt.idle) = true := by simpa using hx
       have e4 : (o.st != OSt.idle) = true := by simpa using ho
-      rw [e3, e4]; simpa using ih'.2
-    · simp only [List.map_cons, hk, List.find?_cons, List.all_cons]
-      refine ⟨?_, ?_⟩
-      · cases o.st == OSt.idle <;> simp [ih'.1]
-      · rw [ih'.2]
+      simp only [List.map_cons, hk, if_true, List.find?_cons, e1, e2, List.all_cons, e3, e4, Bool.true_and]
+      exact ih'
+    · have hk2 : (o.job == x.job && o.idx == x.idx) = false := by simpa using hk
+      simp only [List.map_cons, hk2, Bool.false_eq_true, if_false, List.find?_cons, List.all_cons]
+      refine ⟨?_, by rw [ih'.2]⟩
+      cases o.st == OSt.idle
+      · exact ih'.1
+      · rfl
 
 /-- what one machine transition does, in enough detail for the route invariant -/
 structure MachEffectR (s s' : State) (m0 : MachineState) : Prop where
@@ -158,12 +163,10 @@ structure MachEffectR (s s' : State) (m0 : MachineState) : Prop where
         (J'.loc = j.loc ∨ J'.loc = m0.post.id) ∧
         ∀ m' ∈ s'.machines, ∃ m ∈ s.machines, m.id = m'.id ∧ ∀ x ∈ m'.pre.store, x ∈ m.pre.store))
 
-theorem key_unique_in_job (w : WF inst) {s : State} (hI : StructInv inst s) {j : JobState} (hj : j ∈ s.jobs)
-    {a b : OpState} (ha : a ∈ j.ops) (hb : b ∈ j.ops) (hk : a.job = b.job ∧ a.idx = b.idx) : a = b := by
-  have hnd := hI.shape.ops_key_nodup w hj
-  induction j.ops with
-  | nil => cases ha
-  | cons x xs ih =>
+theorem key_unique_in_list : ∀ {l : List OpState}, (l.map (fun o => (o.job, o.idx))).Nodup →
+    ∀ {a b : OpState}, a ∈ l → b ∈ l → a.job = b.job ∧ a.idx = b.idx → a = b
+  | [], _, _, _, ha, _, _ => by cases ha
+  | x :: xs, hnd, a, b, ha, hb, hk => by
     simp only [List.map_cons, List.nodup_cons, List.mem_map, not_exists, not_and] at hnd
     rcases List.mem_cons.mp ha with rfl | ha'
     · rcases List.mem_cons.mp hb with rfl | hb'
@@ -171,6 +174,103 @@ theorem key_unique_in_job (w : WF inst) {s : State} (hI : StructInv inst s) {j :
       · exact absurd (by simp [hk.1, hk.2]) (hnd.1 b hb')
     · rcases List.mem_cons.mp hb with rfl | hb'
       · exact absurd (by simp [hk.1, hk.2]) (hnd.1 a ha')
-      · exact ih ha' hb' hnd.2
+      · exact key_unique_in_list hnd.2 ha' hb' hk
+
+theorem key_unique_in_job (w : WF inst) {s : State} (hI : StructInv inst s) {j : JobState} (hj : j ∈ s.jobs)
+    {a b : OpState} (ha : a ∈ j.ops) (hb : b ∈ j.ops) (hk : a.job = b.job ∧ a.idx = b.idx) : a = b :=
+  key_unique_in_list (hI.shape.ops_key_nodup w hj) ha hb hk
+
+
+theorem mach_effectR (w : WF inst) {s s' : State} {r r' : Rng} {tr : Transition} {mid : Nat} (hI : StructInv inst s)
+    (hS : SchedInv s) (hg : Guard s tr) (hc : tr.comp = .m mid) (h : applyTransition orc inst s r tr = .ok (s', r')) :
+    ∃ m0 ∈ s.machines, m0.id = mid ∧ MachEffectR s s' m0 := by
+  have hs := hI.shape
+  have hmn := hs.machNodup w
+  have htr := (machine_effect w hI hc h).2.1
+  unfold applyTransition at h
+  simp only [hc] at h
+  obtain ⟨m0, hm0, h⟩ := except_bind_eq_ok h
+  unfold handleMachineTransition at h
+  obtain ⟨m, hm, h⟩ := except_bind_eq_ok h
+  rw [hm0] at hm; simp at hm; subst hm
+  have hmem := getMachine_ok hm0
+  refine ⟨m0, hmem.1, hmem.2, htr, ?_⟩
+  obtain ⟨hd, hh, h⟩ := except_bind_eq_ok h
+  unfold machineHandlerOf at hh
+  -- machines of the new state: the replaced one, or untouched ones
+  have mach : ∀ (M' : MachineState), M'.id = m0.id → (∀ x ∈ M'.pre.store, x ∈ m0.pre.store) →
+      ∀ m' ∈ (s.replaceMachine M').machines, ∃ m ∈ s.machines, m.id = m'.id ∧ (∀ x ∈ m'.pre.store, x ∈ m.pre.store) ∧
+        (m'.id = m0.id → m' = M') := by
+    intro M' hid hsub m' hm'
+    rcases (mem_replaceMachine hmn hmem.1 hid m').mp hm' with rfl | ⟨h0, hne⟩
+    · exact ⟨m0, hmem.1, hid.symm, hsub, fun _ => rfl⟩
+    · exact ⟨m', h0, rfl, fun x hx => hx, fun e => absurd e hne⟩
+  cases hn : tr.new with
+  | t ns => simp [hn] at hh
+  | m ns =>
+    simp only [hn] at hh
+    cases hmh : machineHandler m0.st ns with
+    | none => simp [hmh] at hh
+    | some hd' =>
+      simp [hmh] at hh; subst hh
+      cases hd' with
+      | idleToSetup =>
+        obtain ⟨j, op, oc, mc, sd, b1, b2, hj, _, hjpre, _, _, _, _, _, _, _, _, rfl⟩ := idleToSetup_spec h
+        refine ⟨j, hj, (j.replaceOp (opRec oc s.time (s.time + sd) m0.id)).at m0.buffer.id, rfl, rfl, Or.inl ⟨hjpre, rfl, ?_⟩⟩
+        intro m' hm'
+        obtain ⟨m, hm, e1, e2, e3⟩ := mach (m0.toSetup j.id b1 b2 (s.time + sd) oc.tool) rfl
+          (by intro x hx; simp [MachineState.toSetup, BufState.without] at hx; exact hx.1) m' hm'
+        refine ⟨m, hm, e1, e2, ?_⟩
+        intro hid
+        rw [e3 hid]
+        simp [MachineState.toSetup, BufState.without]
+      | setupToWorking =>
+        have hst0 := (machineHandler_setupToWorking hmh).1
+        obtain ⟨j, op, oc, d, hj, _, hjin, hnn, _, hocj, hoci, _, rfl⟩ := setupToWorking_spec h
+        have hbusy : m0.st ≠ .idle := by rw [hst0]; simp
+        obtain ⟨_, op0, hp0, _, _, _⟩ := busy_job hI hS w hmem.1 hbusy hj hjin
+        have hop0 : op0 = op := by
+          have := nextNotDone_of_processing (hS.ops j hj) hp0
+          rw [hnn] at this; simpa using this.symm
+        subst hop0
+        obtain ⟨_, _, hl, _, hpst⟩ := processing?_split' hp0
+        have hopmem : op0 ∈ j.ops := by rw [hl]; simp
+        have hkeep := replaceOp_keep_idle j (opRec oc s.time (s.time + d) m0.id) (by simp [opRec]) (by
+          intro o ho hk
+          have : o = op0 := key_unique_in_job w hI hj ho hopmem ⟨by rw [hk.1]; simp [opRec, hocj], by rw [hk.2]; simp [opRec, hoci]⟩
+          rw [this, hpst]; simp)
+        refine ⟨j, hj, j.replaceOp (opRec oc s.time (s.time + d) m0.id), rfl, rfl, Or.inr ⟨hjin, hkeep.1, hkeep.2, Or.inl rfl, ?_⟩⟩
+        intro m' hm'
+        obtain ⟨m, hm, e1, e2, _⟩ := mach (m0.toWorking (s.time + d)) rfl (fun x hx => hx) m' hm'
+        exact ⟨m, hm, e1, e2⟩
+      | workingToOutage =>
+        have hst0 := machineHandler_workingToOutage hmh
+        obtain ⟨mc, outs, j, op, _, _, _, hj, htj, hp, rfl⟩ := workingToOutage_spec h
+        have hjin : j.id ∈ m0.buffer.store := hg.ownJob mid hc (by rw [hn, hst0.2]) m0 hmem.1 hmem.2 j.id htj
+        obtain ⟨_, _, hl, _, hpst⟩ := processing?_split' hp
+        have hopmem : op ∈ j.ops := by rw [hl]; simp
+        have hkeep := replaceOp_keep_idle j { op with stop := some (s.time + occupiedFor outs) } (by simp [hpst]) (by
+          intro o ho hk
+          have : o = op := key_unique_in_job w hI hj ho hopmem ⟨hk.1, hk.2⟩
+          rw [this, hpst]; simp)
+        refine ⟨j, hj, j.replaceOp { op with stop := some (s.time + occupiedFor outs) }, rfl, rfl,
+          Or.inr ⟨hjin, hkeep.1, hkeep.2, Or.inl rfl, ?_⟩⟩
+        intro m' hm'
+        obtain ⟨m, hm, e1, e2, _⟩ := mach (m0.toOutage outs (s.time + occupiedFor outs)) rfl (fun x hx => hx) m' hm'
+        exact ⟨m, hm, e1, e2⟩
+      | outageToIdle =>
+        obtain ⟨j, op, mc, rest, b1, b2, hstore, hj, hp, _, _, _, _, rfl⟩ := outageToIdle_spec h
+        have hjin : j.id ∈ m0.buffer.store := by rw [hstore]; simp
+        obtain ⟨_, _, hl, _, hpst⟩ := processing?_split' hp
+        have hopmem : op ∈ j.ops := by rw [hl]; simp
+        have hkeep := replaceOp_keep_idle j { op with stop := some s.time, st := .done } (by simp) (by
+          intro o ho hk
+          have : o = op := key_unique_in_job w hI hj ho hopmem ⟨hk.1, hk.2⟩
+          rw [this, hpst]; simp)
+        refine ⟨j, hj, (j.replaceOp { op with stop := some s.time, st := .done }).at m0.post.id, rfl, rfl,
+          Or.inr ⟨hjin, hkeep.1, hkeep.2, Or.inr rfl, ?_⟩⟩
+        intro m' hm'
+        obtain ⟨m, hm, e1, e2, _⟩ := mach (m0.toIdle j.id b1 b2) rfl (fun x hx => hx) m' hm'
+        exact ⟨m, hm, e1, e2⟩
 
 end JSL
